@@ -143,7 +143,8 @@ def real_case(args):
         for p in props:
             if p in ('C02', 'C04', 'C05', 'C11', 'C17'):
                 fake = SimpleNamespace(cfg=cfg, ref=ref, events=events, world=world,
-                                       outcome=('return', {}) if out['outcome'][0] == 'return' else ('raise', None))
+                                       outcome=('return', {}) if out['outcome'][0] == 'return' else ('raise', None),
+                                       returned_keys=({tuple(kv[0]) for kv in out['outcome'][1]} if out['outcome'][0] == 'return' else None))
                 for key, msg in e2.ORACLES[p](fake):
                     viols.append((p, f'{backend}:real:{key}', f'[real {backend} backend] {msg} | {d}'))
         # trace conformance against SchedRunner
